@@ -111,7 +111,7 @@ class ExprMixin:
         return V(tt, tt.mk(*[(i.z if i.t is not TNone else z3.BoolVal(True)) for i in items]), py=('tupitems', tuple(items)))
 
     def tuple_items(self, v):
-        if is_py(v, 'pytuple'):
+        if is_py(v, 'pytuple') or is_py(v, 'pylist'):
             return list(v.py[1])
         if isinstance(v.t, TTuple):
             if v.py and v.py[0] == 'tupitems':
@@ -132,7 +132,13 @@ class ExprMixin:
             return V(lt, L.l_empty(lt), py=('emptylist',))
         et = elem_t or items[0].t
         lt = TList(et)
-        zs = [coerce(i, et).z for i in items]
+        try:
+            zs = [coerce(i, et).z for i in items]
+        except Unsupported:
+            if elem_t is not None or et is TPy:
+                raise
+            # a list display of values of different kinds (e.g. [id, length, offset, data]): kept as written
+            return Py('pylist', tuple(items))
         return V(lt, L.l_from_items(lt, zs), py=('listlit', tuple(zs)))
 
     def ev_Dict(self, node):
@@ -141,6 +147,11 @@ class ExprMixin:
             return V(dt, None, py=('emptydict',))
         if all(isinstance(k, ast.Constant) and isinstance(k.value, str) for k in node.keys):
             return Py('kwdict', {k.value: self.ev(v) for k, v in zip(node.keys, node.values)})
+        if all(k is not None for k in node.keys):
+            keys = [self.ev(k) for k in node.keys]
+            if all(k.t is TInt and concrete_int(k.z) is not None for k in keys):
+                # a dict display with constant integer keys (e.g. enum members): kept as written
+                return Py('pydict', tuple((k, self.ev(v)) for k, v in zip(keys, node.values)))
         raise Unsupported('dict display')
 
     def ev_Set(self, node):
@@ -297,7 +308,7 @@ class ExprMixin:
                 if attr not in self.st.ghost:
                     raise Unsupported('ghost.%s not declared' % attr)
                 return self.st.ghost[attr]
-            if kind == 'kwdict':
+            if kind in ('kwdict', 'pydict'):
                 return Py('boundbuiltin', base, attr)
             if kind == 'pktfields':
                 return Py('pktfields_m', base.py[1], attr)
@@ -357,6 +368,10 @@ class ExprMixin:
                 # name-mangled private method: stored under its source name
                 found = self.prog.find_method(mod, cls, '__' + attr.split('__', 1)[1])
             if found is not None:
+                if any(isinstance(d, ast.Name) and d.id == 'property' for d in found[1].decorator_list) \
+                        and not self.spec_mode:
+                    # a read of a @property: the getter is called
+                    return self.call_repo(found[0].module, found[0], found[1], [base], {}, None)
                 return Py('bound', base, found[0], found[1])
             r = self.class_attr(self.prog.cls(mod, cls), attr)
             if r is not None:
@@ -559,12 +574,23 @@ class ExprMixin:
             if not self.spec_mode:
                 self.assume_wf(v)
             return v
-        if isinstance(t, TTuple) or is_py(base, 'pytuple'):
+        if isinstance(t, TTuple) or is_py(base, 'pytuple') or is_py(base, 'pylist'):
             ci = concrete_int(idx.z)
             if ci is None:
                 raise Unsupported('symbolic tuple index')
             items = self.tuple_items(base)
+            if not (-len(items) <= ci < len(items)):
+                self.py_raise('IndexError')
             return items[ci]
+        if is_py(base, 'pydict'):
+            # a dict display with concrete integer keys
+            ci = concrete_int(idx.z) if idx.t is TInt else None
+            if ci is None:
+                raise Unsupported('dict display indexed by a symbolic key')
+            for k, v in base.py[1]:
+                if concrete_int(k.z) == ci:
+                    return v
+            self.py_raise('KeyError')
         if is_py(base, 'kwdict'):
             if idx.py and idx.py[0] == 'strlit':
                 d = base.py[1]
@@ -842,6 +868,11 @@ class ExprMixin:
         if is_py(cont, 'kwdict'):
             if item.py and item.py[0] == 'strlit':
                 return z3.BoolVal(item.py[1] in cont.py[1])
+        if is_py(cont, 'pydict') and item.t is TInt:
+            ci = concrete_int(item.z)
+            if ci is not None:
+                return z3.BoolVal(any(concrete_int(k.z) == ci for k, _v in cont.py[1]))
+            return z3.Or(*[item.z == k.z for k, _v in cont.py[1]])
         if isinstance(t, TOpt) and not self.spec_mode:
             self.need(z3.Not(t.is_none(cont.z)), 'TypeError')
             return self.contains(V(t.inner, t.val(cont.z)), item)
